@@ -173,6 +173,7 @@ type vpIdP struct {
 	idTokenOnRefresh bool
 	userinfoClaims map[string]interface{} // override
 	lastIDToken    string
+	garbageIDToken bool
 	lastAccessTok  string
 
 	// scheduler gate for token endpoint (refresh)
@@ -501,6 +502,9 @@ func (p *vpIdP) writeTokens(rw http.ResponseWriter, kind string, lid string, lin
 	resp := map[string]interface{}{"access_token": at, "token_type": "Bearer", "expires_in": p.idTokenTTL}
 	if kind == "code" || p.idTokenOnRefresh {
 		resp["id_token"] = idt
+		if p.garbageIDToken {
+			resp["id_token"] = "not.a-jwt"
+		}
 	}
 	if p.issueRefresh {
 		if p.rotate || lin.ValidRT == "" {
